@@ -679,6 +679,7 @@ func checkSignalAttachment(c *Ctx, rule, fam string, A *Aff, hl *headerLemma, si
 	}
 	// guarded by Cells[i][j] and by c < numSignalCells
 	maskOK := false
+	var maskFrom *ssa.BasicBlock
 	for _, f := range dominatingFacts(ctor.Block()) {
 		if ld, ok := f.Cond.(*ssa.UnOp); ok && ld.Op == token.MUL && f.Val {
 			if ia, ok := ld.X.(*ssa.IndexAddr); ok && ia.Index == jIdx {
@@ -686,6 +687,7 @@ func checkSignalAttachment(c *Ctx, rule, fam string, A *Aff, hl *headerLemma, si
 					if ia2, ok := row.X.(*ssa.IndexAddr); ok && ia2.Index == iIdx {
 						if fv, _ := loadedField(ia2.X); fv == hl.cells {
 							maskOK = true
+							maskFrom = f.From
 						}
 					}
 				}
@@ -693,6 +695,44 @@ func checkSignalAttachment(c *Ctx, rule, fam string, A *Aff, hl *headerLemma, si
 		}
 	}
 	c.Check(maskOK, rule, fam+":signal:mask-guard", ctor.Pos(), "a cell is built only where header.Cells[i][j] is set", "signal cells are built for cells whose mask bit is not tested")
+	// and conversely every set mask bit yields a cell: from the mask-true edge no path reaches the next
+	// column (the header of the loop over the signals) without constructing one — a skipped cell leaves
+	// the field counter behind and every later cell takes its neighbour's values
+	if maskOK && maskFrom != nil && jIdx != nil {
+		if jb, ok := jIdx.(*ssa.BinOp); ok {
+			if jphi, ok := jb.X.(*ssa.Phi); ok {
+				hdrJ := jphi.Block()
+				// a defensive `counter >= numSignalCells` skip is not a skipped cell: the number of set bits
+				// is the number of cells (lemma L-header-shape), so that edge is not taken before the
+				// last cell has been built
+				counterGuard := func(a, b *ssa.BasicBlock) bool {
+					ifi, ok := lastInstr(a).(*ssa.If)
+					if !ok || len(a.Succs) != 2 || a.Succs[0] == a.Succs[1] {
+						return true
+					}
+					cmp, ok := ifi.Cond.(*ssa.BinOp)
+					if !ok || cIdx == nil {
+						return true
+					}
+					taken := b == a.Succs[0]
+					switch {
+					case cmp.X == cIdx && (cmp.Op == token.GEQ || cmp.Op == token.GTR) && taken,
+						cmp.X == cIdx && (cmp.Op == token.LSS || cmp.Op == token.LEQ) && !taken,
+						cmp.Y == cIdx && (cmp.Op == token.LEQ || cmp.Op == token.LSS) && taken,
+						cmp.Y == cIdx && (cmp.Op == token.GTR || cmp.Op == token.GEQ) && !taken:
+						return false
+					}
+					return true
+				}
+				q := pathQuery{avoid: func(i ssa.Instruction) bool { return i == ssa.Instruction(ctor) }, goal: func(i ssa.Instruction) bool { return i.Block() == hdrJ }, edgeOK: counterGuard}
+				if path, _ := q.search(maskFrom.Succs[0], -1); path != nil && maskFrom.Succs[0] != hdrJ {
+					c.Fail(rule, fam+":signal:cell-for-every-set-bit", ctor.Pos(), "refuted", "a cell whose mask bit is set can be skipped: the fields of every later cell are then taken from the wrong position of the field arrays", c.P.blockPath(path)...)
+				} else {
+					c.OK(rule, fam+":signal:cell-for-every-set-bit", ctor.Pos(), "every path from a set mask bit to the next column constructs a cell")
+				}
+			}
+		}
+	}
 	// the counter advances by exactly one on the constructing path and nowhere else
 	incOK := false
 	if phi, ok := cIdx.(*ssa.Phi); ok {
